@@ -221,9 +221,25 @@ impl Tr {
     }
 }
 
+/// extra work inside `Tr::clone`, after the source has been looked at once and before it is looked
+/// at again (C16 stress: a slow user Clone widens the window in which the buffer may not move)
+static CLONE_SPIN: std::sync::atomic::AtomicU32 = std::sync::atomic::AtomicU32::new(0);
+
+pub fn set_clone_spin(n: u32) {
+    CLONE_SPIN.store(n, std::sync::atomic::Ordering::SeqCst);
+}
+
 impl Clone for Tr {
     fn clone(&self) -> Self {
         self.touch("clone");
+        let n = CLONE_SPIN.load(std::sync::atomic::Ordering::Relaxed);
+        if n > 0 {
+            for _ in 0..n {
+                std::hint::spin_loop();
+            }
+            // the source must still be what it was
+            self.touch("clone (after the pause)");
+        }
         Tr::new(self.tag as i32)
     }
 }
